@@ -24,7 +24,7 @@ func genC18(seed int64, n int) *c18Prog {
 	p := &c18Prog{id: fmt.Sprintf("seq%d", seed), nin: 2}
 	ints := []string{"in0", "in1"}
 	var funcs, ptrs []string
-	hasFmt, hasType, hasTot := false, false, false
+	hasFmt, hasType, hasTot, hasInit := false, false, false, false
 	newName := func(prefix string) string {
 		return fmt.Sprintf("%s%d", prefix, len(p.globals))
 	}
@@ -54,6 +54,9 @@ func genC18(seed int64, n int) *c18Prog {
 		}
 		if rng.Intn(7) == 0 {
 			k = 17
+		}
+		if !hasInit && rng.Intn(8) == 0 {
+			k = 18
 		}
 		if last && rng.Intn(2) == 0 {
 			k = 12
@@ -152,6 +155,13 @@ func genC18(seed int64, n int) *c18Prog {
 			default:
 				p.stmts = append(p.stmts, fmt.Sprintf("if %s != %s {\n\tvar bb byte = 250\n\tbb += 10\n\t%s += int(bb)\n} else {\n\ts := \"ab\"\n\t%s += len(s)\n}", x, y, x, x))
 			}
+		case 18:
+			// an init function between statements that observe the variable it changes: a sequence runs in source order
+			if x == "in0" || x == "in1" {
+				continue
+			}
+			p.stmts = append(p.stmts, fmt.Sprintf("func init() {\n\t%s = %s*10 + 1\n}", x, x), fmt.Sprintf("%s = %s + 5", x, x))
+			hasInit = true
 		case 17:
 			// switches (tag-less and tagged), at top level and inside a function declared at top level; declarations
 			// that follow must still be globals
